@@ -211,7 +211,7 @@ PROPS["C18"]["tasks"] += ["SequentialRunner._generate_markets[fundamental-parame
 # C07 "running does not modify the caller's settings object": every function that receives (a part of) the settings has a frame that excludes the settings maps
 PROPS["C07"]["tasks"] += ["Session.setup", "Agent.setup", "FundamentalPriceShock.setup", "OrderMistakeShock.setup", "PriceLimitRule.setup", "TradingHaltRule.setup", "IndexMarket.setup",
                           "Market.__init__ + setup establish the pre-first-tick MarketInv"]
-PROPS["C20"]["tasks"] += ["FCNAgent.setup", "MarketMakerAgent.setup", "ArbitrageAgent.setup"]
+PROPS["C20"]["tasks"] += ["FCNAgent.setup", "MarketMakerAgent.setup", "ArbitrageAgent.setup", "FCNAgent.submit_orders", "ArbitrageAgent.submit_orders"]
 for _p in ("C06", "C08"):
     PROPS[_p]["tasks"].append("Market accessors read their own series")
 for _p in ("C09", "C11"):
